@@ -53,3 +53,72 @@ Example C16_example_nested_paths :
   /\ shorten "/home/u/go/src/" "/home/u/go/" "/usr/lib/go/" "/home/u/go/src/x.go:1:1" = "./x.go:1:1"
   /\ expand "/go/" "/home/u/go/" "/usr/lib/go/" "$GOPATH/src/x.go:1:1" = "/home/u/go/src/x.go:1:1".
 Proof. vm_compute. auto. Qed.
+
+(* ---- round 5: the file on disk versus the file the CLI is shown ----
+   Full statement (the property's last sentence, read on the user's files):
+     forall cfg f, disk_file_checked cfg f = disk_file_wanted cfg f.
+   It holds when no //line directive precedes the package clause and the file does not import "C". *)
+Theorem C16_disk_filter_partial : forall cfg f,
+  df_line_name f = None -> df_cgo f = false -> disk_file_checked cfg f = disk_file_wanted cfg f.
+Proof. exact disk_filter_spec. Qed.
+Print Assumptions C16_disk_filter_partial.
+
+(* With such a directive the directive's name decides, whatever the file is called ... *)
+Theorem C16_disk_filter_line_name_decides : forall cfg f n,
+  df_line_name f = Some n -> df_cgo f = false ->
+  disk_file_checked cfg f =
+  negb (negb (check_tests cfg) && has_suffix "_test.go" (base_name n))
+  && negb (negb (check_generated cfg) && is_generated_impl (df_groups f)).
+Proof. exact disk_filter_line_name_decides. Qed.
+Print Assumptions C16_disk_filter_line_name_decides.
+
+(* ... so an ordinary file is skipped and a test file is reported (recorded findings). *)
+Theorem C16_disk_filter_line_ordinary_refuted :
+  exists cfg f, df_cgo f = false /\ disk_file_wanted cfg f = true /\ disk_file_checked cfg f = false.
+Proof. exact disk_filter_line_ordinary_refuted. Qed.
+Print Assumptions C16_disk_filter_line_ordinary_refuted.
+Theorem C16_disk_filter_line_test_refuted :
+  exists cfg f, df_cgo f = false /\ disk_file_wanted cfg f = false /\ disk_file_checked cfg f = true.
+Proof. exact disk_filter_line_test_refuted. Qed.
+Print Assumptions C16_disk_filter_line_test_refuted.
+
+(* Every file importing "C" is skipped unless -checkGenerated is given (recorded finding). *)
+Theorem C16_disk_filter_cgo_always_skipped : forall cfg f,
+  df_cgo f = true -> check_generated cfg = false -> disk_file_checked cfg f = false.
+Proof. exact disk_filter_cgo_always_skipped. Qed.
+Print Assumptions C16_disk_filter_cgo_always_skipped.
+Theorem C16_disk_filter_cgo_refuted :
+  exists cfg f, df_line_name f = None /\ disk_file_wanted cfg f = true /\ disk_file_checked cfg f = false.
+Proof. exact disk_filter_cgo_refuted. Qed.
+Print Assumptions C16_disk_filter_cgo_refuted.
+
+(* ---- round 5: the status the operating system delivers ----
+   parseArgs accepts an -exitCode value only if a process can deliver it (0..255); for every accepted value the
+   delivered status is that value iff something was printed, and 0 otherwise. *)
+Theorem C16_exit_status_delivered : forall z cfg fs,
+  parse_exit_code z = Some (exit_code cfg) ->
+  os_status (fst (run cfg fs)) = if nonempty (all_lines cfg fs) then z else 0%Z.
+Proof. exact exit_status_accepted. Qed.
+Print Assumptions C16_exit_status_delivered.
+Theorem C16_exit_zero_iff_no_diag_partial : forall cfg fs,
+  (1 <= exit_code cfg < 256)%Z -> (os_status (fst (run cfg fs)) = 0%Z <-> all_lines cfg fs = []).
+Proof. exact exit_zero_iff_no_diag. Qed.
+Print Assumptions C16_exit_zero_iff_no_diag_partial.
+(* what os.Exit makes of a multiple of 256, whoever passes it *)
+Theorem C16_exit_multiple_of_256_is_zero : forall cfg fs k,
+  exit_code cfg = (256 * k)%Z -> os_status (fst (run cfg fs)) = 0%Z.
+Proof. exact exit_multiple_of_256. Qed.
+Print Assumptions C16_exit_multiple_of_256_is_zero.
+(* before the repair parseArgs took every value: -exitCode=256 made a run with diagnostics exit 0 *)
+Theorem C16_exit_code_wraps_prefix_refuted :
+  exists z cfg fs, parse_exit_code_prefix z = Some (exit_code cfg) /\ all_lines cfg fs <> [] /\ z <> 0%Z
+                   /\ os_status (fst (run cfg fs)) = 0%Z.
+Proof. exact exit_code_wraps_prefix_refuted. Qed.
+Print Assumptions C16_exit_code_wraps_prefix_refuted.
+
+Example C16_example_disk_filter :
+  disk_file_checked {| check_tests := false; check_generated := false; exit_code := 1 |}
+    {| df_name := "a.go"; df_line_name := None; df_cgo := false; df_groups := [] |} = true
+  /\ base_name "tmpl/zz_test.go" = "zz_test.go"
+  /\ parse_exit_code 256 = None /\ parse_exit_code 7 = Some 7%Z.
+Proof. vm_compute. auto. Qed.
